@@ -890,6 +890,97 @@ func vObserve(s *store, evs []vGenEvent, times []int64, dids map[string]did.DID,
 	return out
 }
 
+// vRawDump: the literal content of the seven shelves, read through the stoabs API (bbolt and redis alike), in a canonical
+// sorted form: latestV2 key>value, metadataV2 keys (with the record's own version), eventsV2 MetaRefs per DID, conflictedV2
+// keys, the two statsV2 values as hex bytes, txRefV2 ref>name of the payload hash, documentsV2 keys named by the content
+// stored under them ("!key" = the key is not the SHA-256 of the value).
+func vRawDump(s *store) (res string) {
+	defer func() {
+		if r := recover(); r != nil {
+			res = "raw panic: reading the shelves panicked"
+		}
+	}()
+	var latest, metas, evrefs, conf, txs, docs []string
+	cc, dc := "-", "-"
+	docName := map[hash.SHA256Hash]string{}
+	type kv struct {
+		k stoabs.Key
+		v []byte
+	}
+	all := func(tx stoabs.ReadTx, shelf string, kt stoabs.Key) []kv {
+		var out []kv
+		_ = tx.GetShelfReader(shelf).Iterate(func(k stoabs.Key, v []byte) error {
+			out = append(out, kv{k, append([]byte(nil), v...)})
+			return nil
+		}, kt)
+		return out
+	}
+	err := s.db.Read(context.Background(), func(tx stoabs.ReadTx) error {
+		for _, e := range all(tx, documentShelf, stoabs.HashKey{}) {
+			var d did.Document
+			name := "?unparsable"
+			if json.Unmarshal(e.v, &d) == nil {
+				name = vContentName(d)
+			}
+			var h hash.SHA256Hash
+			copy(h[:], e.k.Bytes())
+			docName[h] = name
+			if !h.Equals(hash.SHA256Sum(e.v)) {
+				name += "!key"
+			}
+			docs = append(docs, name)
+		}
+		for _, e := range all(tx, transactionIndexShelf, stoabs.HashKey{}) {
+			n, ok := docName[hash.FromSlice(e.v)]
+			if !ok {
+				n = "?absent"
+			}
+			txs = append(txs, fmt.Sprintf("%x>%s", e.k.Bytes()[:5], n))
+		}
+		for _, e := range all(tx, latestShelf, stoabs.BytesKey{}) {
+			latest = append(latest, string(e.k.Bytes())+">"+string(e.v))
+		}
+		for _, e := range all(tx, metadataShelf, stoabs.BytesKey{}) {
+			var m documentMetadata
+			v := "?"
+			if json.Unmarshal(e.v, &m) == nil {
+				v = strconv.Itoa(m.Version)
+			}
+			metas = append(metas, string(e.k.Bytes())+":v"+v)
+		}
+		for _, e := range all(tx, eventShelf, stoabs.BytesKey{}) {
+			var el eventList
+			var refs []string
+			if json.Unmarshal(e.v, &el) == nil {
+				for _, ev := range el.Events {
+					refs = append(refs, ev.MetaRef)
+				}
+			}
+			evrefs = append(evrefs, string(e.k.Bytes())+":"+strings.Join(refs, "/"))
+		}
+		for _, e := range all(tx, conflictedShelf, stoabs.BytesKey{}) {
+			conf = append(conf, fmt.Sprintf("%s:%x", e.k.Bytes(), e.v))
+		}
+		st := tx.GetShelfReader(statsShelf)
+		if b, err := st.Get(stoabs.BytesKey(conflictedCountKey)); err == nil && b != nil {
+			cc = fmt.Sprintf("%x", b)
+		}
+		if b, err := st.Get(stoabs.BytesKey(documentCountKey)); err == nil && b != nil {
+			dc = fmt.Sprintf("%x", b)
+		}
+		return nil
+	})
+	if err != nil {
+		return "raw err: the shelves cannot be read"
+	}
+	for _, l := range [][]string{latest, metas, evrefs, conf, txs, docs} {
+		sort.Strings(l)
+	}
+	return fmt.Sprintf("raw latest=[%s] metas=[%s] evrefs=[%s] conf=[%s] cc=%s dc=%s tx=[%s] docs=[%s]",
+		strings.Join(latest, ","), strings.Join(metas, ","), strings.Join(evrefs, ","), strings.Join(conf, ","), cc, dc,
+		strings.Join(txs, ","), strings.Join(docs, ","))
+}
+
 func TestVerifC10(t *testing.T) {
 	outDir := os.Getenv("VERIF_OUT")
 	if outDir == "" {
@@ -1030,6 +1121,10 @@ func TestVerifC10(t *testing.T) {
 		opsW.Write(b)
 		opsW.WriteByte('\n')
 		implW.WriteString(addErrs + vObserve(s, evs, times, dids, probes, false))
+		implW.WriteByte('\n')
+		// the literal shelves (order-DEPENDENT for documentsV2: intermediate merged documents stay behind)
+		opsW.WriteString(`{"op":"raw"}` + "\n")
+		implW.WriteString(vRawDump(s))
 		implW.WriteByte('\n')
 		// restart: a fresh store object on the same database must give the same answers (conflicted cache reload)
 		s2 := New(&storage.StaticKVStoreProvider{Store: db}).(*store)
@@ -1204,7 +1299,12 @@ func vFromOp(op vOp) []vGenEvent {
 			panic(err)
 		}
 		ref, _ := hash.ParseHex(e.Ref)
+		// an accepted transaction's payload hash is the SHA-256 of the published bytes (the document is rebuilt here, so
+		// the recorded hex is recomputed; identical documents still share one hash)
 		ph, _ := hash.ParseHex(e.Payload)
+		if db, err := json.Marshal(d); err == nil {
+			ph = hash.SHA256Sum(db)
+		}
 		st := time.Unix(e.Time, 0).UTC()
 		if op.TU == "ns" {
 			st = vBase.Add(time.Duration(e.Time))
